@@ -363,7 +363,6 @@ add(
     H("dir::verif::lfn_buffer_contract", ["C19", "C17"],
       "alloc build: Vec-backed LfnBuffer: set_len keeps the prefix and zero-fills growth, len/as_ucs2_units agree, clear empties, from_ucs2_units copies",
       "sizes 0/13/26/5 concrete, contents symbolic"),
-    twin("dir::verif::twin_lnb_always_yields_name", ["C17"], "claims a one-slot run is always accepted (alloc build)", "len() > 0"),
     H("dir::verif::lfn_checksum_spec", ["C16", "C03", "C17"], "lfn_checksum == the specification's rotate-and-add checksum", "all 2^88 short names"),
     H("dir::verif::split_path_spec", ["C15"],
       "split_path == reference: surrounding slashes stripped, split at the first inner slash", "every path of <= 6 bytes over {'/','a','.'}; memchr stubs", stubs=True),
